@@ -273,6 +273,13 @@ func TestC12(t *testing.T) {
 		for i := 0; i < rounds; i++ {
 			stress(t, stats, int64(core.EnvInt("VERIF_SEED", 1))*1000+int64(i))
 		}
+		races := 150
+		if core.Tier() == "thorough" {
+			races = 1500
+		}
+		for i := 0; i < races; i++ {
+			shutdownRace(t, stats, core.EnvInt("VERIF_SEED", 1)*races+i)
+		}
 	}
 }
 
@@ -488,4 +495,82 @@ func idleShutdown(t *testing.T, stats *core.Stats, i int) {
 		core.SaveFailure("last", map[string]any{"violation": msg})
 		t.Fatalf("VIOLATION C12 %s", msg)
 	}
+}
+
+// shutdownRace aims at one window: a client's EnqueueSQE that overlaps Shutdown and the loop's last look at the
+// queue. Clients hammer the api queue without pause until they are told the system is shutting down; Shutdown is
+// called from another goroutine at a drawn instant; judged after Loop and the clients returned: a request whose
+// EnqueueSQE returned without an answer must be answered by the time Loop has returned.
+func shutdownRace(t *testing.T, stats *core.Stats, trial int) {
+	m := metrics.New(prometheus.NewRegistry())
+	ap := api.New(1000, m)
+	ai := aio.New(1000, m)
+	ec, _ := echo.New(ai, m, &echo.Config{Size: 1000, BatchSize: 16, Workers: 2})
+	ai.AddSubsystem(ec)
+	if err := ai.Start(); err != nil {
+		t.Fatal(err)
+	}
+	cfg := &system.Config{CoroutineMaxSize: 1000, SubmissionBatchSize: 100, CompletionBatchSize: 100, PromiseBatchSize: 1, ScheduleBatchSize: 1, TaskBatchSize: 1, SignalTimeout: 5 * time.Millisecond, TaskEnqueueDelay: time.Second}
+	sys := system.New(ap, ai, cfg, m)
+	sys.AddOnRequest(t_api.Echo, coroutines.Echo)
+	loopDone := make(chan struct{})
+	go func() { _ = sys.Loop(); close(loopDone) }()
+	const clients = 6
+	var sent, answeredN int64
+	var wg sync.WaitGroup
+	for c := 0; c < clients; c++ {
+		wg.Add(1)
+		go func(c int) {
+			defer wg.Done()
+			for i := 0; i < 200000; i++ {
+				var refused int32
+				atomic.AddInt64(&sent, 1)
+				ap.EnqueueSQE(&bus.SQE[t_api.Request, t_api.Response]{Id: "x", Submission: &t_api.Request{Kind: t_api.Echo, Tags: map[string]string{"id": fmt.Sprintf("c%d.%d", c, i), "name": "Echo"}, Echo: &t_api.EchoRequest{Data: "d"}},
+					Callback: func(res *t_api.Response, err error) {
+						atomic.AddInt64(&answeredN, 1)
+						if err != nil && code(err) == t_api.StatusSystemShuttingDown {
+							atomic.StoreInt32(&refused, 1)
+						}
+					}})
+				if atomic.LoadInt32(&refused) == 1 {
+					return
+				}
+			}
+		}(c)
+	}
+	time.Sleep(time.Duration(200+(trial*37)%1800) * time.Microsecond)
+	sys.Shutdown()
+	select {
+	case <-loopDone:
+	case <-time.After(30 * time.Second):
+		stats.Class("shutdown-race-inconclusive:loop-did-not-return")
+		return
+	}
+	done := make(chan struct{})
+	go func() { wg.Wait(); close(done) }()
+	select {
+	case <-done:
+	case <-time.After(30 * time.Second):
+		stats.Class("shutdown-race-inconclusive:clients-stuck")
+		return
+	}
+	time.Sleep(5 * time.Millisecond)
+	stats.Eval()
+	stats.Class("shutdown-race-trial")
+	if s, a := atomic.LoadInt64(&sent), atomic.LoadInt64(&answeredN); a < s {
+		key := "C12:enqueue-overlapping-shutdown"
+		msg := fmt.Sprintf("shutdown race trial %d: %d of %d requests whose EnqueueSQE returned were never answered although Loop has returned (accepted into the queue after the loop's last look at it)", trial, s-a, s)
+		if core.IsKnown(key) {
+			stats.KnownFinding(key)
+			fmt.Printf("KNOWN-FINDING: property=C12 %s — %s\n", key, msg)
+			return
+		}
+		core.SaveFailure("last", map[string]any{"violation": msg, "key": key})
+		t.Fatalf("VIOLATION C12 %s", msg)
+	} else if a > s {
+		core.SaveFailure("last", map[string]any{"violation": "more answers than requests"})
+		t.Fatalf("VIOLATION C12 shutdown race trial %d: %d answers for %d requests", trial, a, s)
+	}
+	_ = ap.Stop()
+	_ = ai.Stop()
 }
